@@ -329,6 +329,21 @@ Definition bm_value_agrees (member : option json) (rv : list Z) : bool :=
 Definition bodymap_mismatch (ms : list (list Z * json)) (readback : kv) (keys : list (list Z)) : option (list Z) :=
   find (fun k => negb (bm_value_agrees (find_member k ms) (assoc k readback))) keys.
 
+(* first (kind, key) on which a getter's answer differs from what was put into that part of the request *)
+Definition getter_mismatch (readback intended : request) (bodykind : Z) (keys : list (list Z)) : option (Z * list Z) :=
+  let kinds := [K_QUERY; K_PATH; K_HEADER; K_FORM] in
+  match find (fun p => negb (zlist_eqb (getter (fst p) readback (snd p)) (getter (fst p) intended (snd p))))
+             (flat_map (fun key => map (fun k => (k, key)) kinds) keys) with
+  | Some p => Some p
+  | None =>
+    if bodykind =? 1 then      (* the body map of a form request is the post form *)
+      match find (fun key => negb (zlist_eqb (getter K_BODY readback key) (getter K_FORM intended key))) keys with
+      | Some key => Some (K_BODY, key)
+      | None => None
+      end
+    else None
+  end.
+
 Definition check_1701 (fs : list field) : verdict :=
   match fs with
   | FZ bits :: FZ impl :: r =>
@@ -336,7 +351,15 @@ Definition check_1701 (fs : list field) : verdict :=
     | Some (TStruct flds, FZ nv :: r1) =>
       if (nv <? 0) || (nv >? 1000000) then VBad 99 [] else
       match parse_view (Z.to_nat nv) r1 (mkReq [] [] [] [] [] [] [] []) with
-      | Some (rq0, [FB raw; FB uri; FB body; FZ ec; FB outb]) =>
+      | Some (rq0, FB raw :: FB uri :: FZ bodykind :: FZ ni :: r2) =>
+        if (ni <? 0) || (ni >? 1000000) then VBad 99 [] else
+        match parse_view (Z.to_nat ni) r2 (mkReq [] [] [] [] [] [] [] []) with
+        | Some (rqi, [FB body; FZ ec; FB outb]) =>
+        (* the getters against what the harness PUT into the request: GetQuery reads the URL query only, GetPostForm (and GetMapBody
+           of a form request) the form body only, GetParam / GetHeader their own stores *)
+        match getter_mismatch rq0 rqi bodykind (key_universe 8 flds) with
+        | Some (k, key) => VBad 8 [FZ k; FB key; FB (getter (if k =? K_BODY then K_FORM else k) rqi key)]
+        | None =>
         let o := opts_of bits in
         let jb := match body with [] => Some None | _ => match json_parse body with Some j => Some (Some j) | None => None end end in
         match jb with
@@ -369,6 +392,9 @@ Definition check_1701 (fs : list field) : verdict :=
             else VBad 1 (hres_detail spec)
           end
           end
+        end
+        end
+        | _ => VBad 98 []
         end
       | _ => VBad 98 []
       end
